@@ -10,7 +10,9 @@ S2  RuleReuse_Shapes.tla: TLC enumerates every reload shape (old list, new list)
     says which reloads must be invisible, which add copies of the watched rule, and what the statement's / the greedy
     relation do.  Each shape is combined with a stateful KIND (open breaker with pending deadline, half-full throttling
     queue, warm-up tokens, standalone-window count, hot-parameter token bucket / pacing / concurrency) and a reload
-    position in its <= 8-step traffic history, through the whole-set or the per-resource load.
+    position in its <= 8-step traffic history; the entry point of the initial load (whole-set / per-resource) and of the
+    reload (whole-set / whole-set with another resource changed / per-resource) are chosen independently, and so is the
+    spelling of the optional fields of the rules (written out / left at zero so that the module's defaulting applies).
 S3  harness/cmd/c14 runs the pair (sigma, erase(sigma)) - or (sigma, new-list-from-the-start) for a modified rule with
     unchanged statistic parameters - on fresh module state under identical clocks and records both decision traces.
 S4  RuleReuse_Trace.tla (TLC) demands that the traces agree step by step.
@@ -33,6 +35,21 @@ KINDS = {
     'hot-throttle': ('hotspot', 'MCStat', ['erase', 'fromstart']),
     'hot-conc': ('hotspot', 'MCStat', ['erase', 'fromstart']),
 }
+# kind -> spellings of the optional fields the driver knows (harness/cmd/c14: kind.opts): 'set' = written out, 'unset' = left
+# at zero so that the module's defaulting applies, 'part' = only some unset, 'nil' = hotspot SpecificItems nil
+OPTS = {
+    'flow-throttle': ['set', 'unset'], 'flow-warmup': ['set', 'unset', 'part'], 'flow-standalone': ['set'], 'flow-standalone-mod': ['set'],
+    'cb-open': ['unset', 'set'], 'cb-mod': ['unset', 'set'], 'hot-bucket': ['unset', 'set'], 'hot-bucket-nil': ['unset', 'set'],
+    'hot-throttle': ['unset', 'set', 'nil'], 'hot-conc': ['unset', 'set', 'nil'],
+}
+P0S = ['whole', 'res']                          # entry point of the initial load
+PATHS = ['whole', 'wholeOther', 'res']          # load path of the reload (RuleReuse: AllPaths)
+ALLPATHS = '{"whole", "wholeOther", "res"}'
+
+
+def entry(path):
+    return 'res' if path == 'res' else 'whole'
+
 # fromstart: the history up to the reload must be decided alike by X and Xm
 FROMSTART_MAXPOS = {'flow-standalone-mod': 3, 'cb-mod': 1, 'hot-bucket': 8, 'hot-throttle': 8, 'hot-conc': 8}
 # shapes that are always replayed at EVERY reload position through both load paths
@@ -40,7 +57,8 @@ SEED_SHAPES = [(['X'], ['X']), (['X'], ['S1', 'X']), (['X', 'S1'], ['S1', 'X']),
                (['X', 'S1'], ['X']), (['X'], ['X', 'S1']), (['X', 'S1'], ['S2', 'X']), (['N1', 'X'], ['S1', 'N2', 'X']), (['X', 'N1'], ['X', 'N2'])]
 
 
-def mc_cfg(toks, stat, maxlen, maxtraffic, reuse='statement', invs='ReloadInvisible SamePresence ReuseRespected'):
+def mc_cfg(toks, stat, maxlen, maxtraffic, reuse='statement', invs='ReloadInvisible SamePresence ReuseRespected IdentityIsCallerTuple',
+           defaulting='{}', paths=ALLPATHS):
     return """SPECIFICATION Spec
 CONSTANTS
   Toks <- %s
@@ -49,10 +67,13 @@ CONSTANTS
   MaxLen = %d
   MaxTraffic = %d
   Reuse = "%s"
+  Paths = %s
+  Norm <- MCNorm
+  Defaulting = %s
 VIEW view
 INVARIANTS %s
 CHECK_DEADLOCK FALSE
-""" % (toks, stat, maxlen, maxtraffic, reuse, invs)
+""" % (toks, stat, maxlen, maxtraffic, reuse, paths, defaulting, invs)
 
 
 def shapes_cfg(stat):
@@ -64,13 +85,16 @@ CONSTANTS
   MaxLen = 3
   MaxTraffic = 0
   Reuse = "statement"
+  Paths = {"whole", "wholeOther", "res"}
+  Norm <- MCNorm
+  Defaulting = {}
 INVARIANTS ShPrint
 CHECK_DEADLOCK FALSE
 """ % stat
 
 
-def pair(tr, kind, mode, old, new, pos, path):
-    return dict(op='pair', tr=tr, kind=kind, mode=mode, old=old, new=new, pos=pos, path=path)
+def pair(tr, kind, mode, old, new, pos, p0, path, opt):
+    return dict(op='pair', tr=tr, kind=kind, mode=mode, old=old, new=new, pos=pos, p0=p0, path=path, opt=opt)
 
 
 def run_and_validate(c, drv, pairs, tag):
@@ -100,6 +124,11 @@ def signature(exp, shape_of):
             return ('C14/%s/greedy-reuse/earlier-stat-compatible-new-rule-takes-controller-of-unchanged-rule' % mod,
                     '%s: a new rule that merely has the same statistic parameters and precedes the unchanged rule in the new list consumes the '
                     "unchanged rule's old controller (calculateReuseIndexFor serves new rules in order): the unchanged rule is rebuilt from scratch" % mod)
+    return generic_signature(exp)
+
+
+def generic_signature(exp):
+    mod, kind, mode = exp['mod'], exp['kind'], exp['mode']
     if kind == 'hot-bucket-nil':
         return ('C14/hotspot/nil-specific-items/rule-not-equal-to-itself-after-first-load',
                 'hotspot: a rule with nil SpecificItems never Equals itself after the first load (the load stored an empty map into it): on a reload it is '
@@ -148,10 +177,24 @@ def sensitive(tp):
         e = json.loads(l)
         if e['op'] == 'new':
             cur, hit = e, False
-        elif not hit and e['i'] > cur['pos'] and (e['b']['d'] == 'B' or e['b']['w'] > 0) and cur['old'] != cur['new']:
+        elif not hit and e['i'] > cur['pos'] and (e['b']['d'] == 'B' or e['b']['w'] > 0) and cur['ld']:
             hit = True
-            keys.add(json.dumps([cur['kind'], cur['mode'], cur['old'], cur['new'], cur['pos'], cur['path']]))
+            keys.add(json.dumps([cur['kind'], cur['mode'], cur['old'], cur['new'], cur['pos'], cur['p0'], cur['path'], cur['opt']]))
     return keys
+
+
+def reached_stats(tp, shape_of):
+    """(pairs whose reload got past the module's unchanged-detection, pairs where the module's answer differs from what
+    RuleReuse's Skipped says for that shape and load path - TLC's `skip' of RuleReuse_Shapes)"""
+    n, odd = 0, []
+    for l in open(tp):
+        e = json.loads(l)
+        if e['op'] == 'new':
+            n += 1 if e['ld'] else 0
+            sh = shape_of.get((KINDS[e['kind']][1], e['mode'], json.dumps(e['old']), json.dumps(e['new'])))
+            if sh is not None and sh['skip'][e['path']] == e['ld']:
+                odd.append([e['kind'], e['old'], e['new'], e['p0'], e['path'], e['opt'], e['ld']])
+    return n, odd
 
 
 def check(c, tier, replay):
@@ -183,11 +226,14 @@ def check(c, tier, replay):
         return
     # S1 ---------------------------------------------------------------------------------
     # (lists <= 3 without traffic check the structural clauses NoStatWasted / EqualKeepsController for every pair of lists)
-    runs = [('MCToks', 'MCStat', 2, 2), ('MCToks', 'MCStatNone', 2, 2), ('MCToks', 'MCStat', 3, 0)]
+    # every Reload action takes its load path as a parameter (per-resource / whole-set / whole-set with another resource changed)
+    runs = [('MCToks', 'MCStat', 2, 2, None), ('MCToks', 'MCStatNone', 2, 2, None), ('MCToks', 'MCStat', 3, 0, None),
+            # Xe = X with its defaults spelled out: a different rule for the statement; + the entry point must be irrelevant
+            ('MCToksD', 'MCStat', 2, 2, 'ReloadInvisible SamePresence ReuseRespected IdentityIsCallerTuple EntryPointAgnostic')]
     if thorough:
-        runs += [('MCToks3', 'MCStat', 3, 1), ('MCToks3', 'MCStat', 3, 2)]      # ~1 min and ~10 min
-    for toks, stat, ml, mt in runs:
-        r = c.model_check('RuleReuse_MC', cfg_text=mc_cfg(toks, stat, ml, mt), workers=8, timeout=3000)
+        runs += [('MCToks3', 'MCStat', 3, 1, None), ('MCToks3', 'MCStat', 3, 2, None)]      # ~1 min and ~10 min
+    for toks, stat, ml, mt, invs in runs:
+        r = c.model_check('RuleReuse_MC', cfg_text=mc_cfg(toks, stat, ml, mt, **(dict(invs=invs) if invs else {})), workers=8, timeout=3000)
         if not r.completed:
             c.inconclusive.append('RuleReuse.tla: %s violated with the reuse relation of the statement' % r.violated)
     c.cov['exhaustive'] = True
@@ -197,48 +243,85 @@ def check(c, tier, replay):
         if r.violated != 'ReloadInvisible':
             raise MachineryError('vacuity self-test: reuse algorithm %s does not violate ReloadInvisible (%s)' % (alg, r.error or r.violated))
         caught[alg] = r.violated
+    # an entry point that stores / compares the defaulted copy of a rule instead of the caller's tuple
+    for dflt in ('{"whole"}', '{"res"}'):
+        for inv in ('ReloadInvisible', 'EntryPointAgnostic'):
+            r = c.tlc('RuleReuse_MC', cfg_text=mc_cfg('MCToksD', 'MCStat', 2, 2, invs=inv, defaulting=dflt), workers=4, timeout=600, count=False)
+            if r.violated != inv:
+                raise MachineryError('vacuity self-test: Defaulting = %s does not violate %s (%s)' % (dflt, inv, r.error or r.violated))
+            caught['defaulting=%s/%s' % (dflt.strip('{}').strip('"'), inv)] = r.violated
     c.cov['spec_mutants_caught'] = caught
-    c.log('vacuity self-test: reuse algorithms that violate ReloadInvisible in TLC: %s' % sorted(caught))
+    c.log('vacuity self-test: spec mutants that violate their invariant in TLC: %s' % sorted(caught))
     # scenarios --------------------------------------------------------------------------
     pairs, tr = [], 0
     per_kind = 250 if not thorough else 1500
     for kind, (mod, stat, modes) in KINDS.items():
+        opts = OPTS[kind]
         if 'erase' in modes:
-            for old, new in SEED_SHAPES:               # reload inserted at every position, both load paths
+            # the seed shapes: reload inserted at every position, every combination of the entry point of the initial load
+            # and the load path of the reload, every spelling of the optional fields
+            for old, new in SEED_SHAPES:
                 for pos in range(0, NSTEPS + 1):
-                    tr += 1
-                    pairs.append(pair(tr, kind, 'erase', old, new, pos, 'whole' if (pos + len(new)) % 2 else 'res'))
-                    if thorough:
-                        tr += 1
-                        pairs.append(pair(tr, kind, 'erase', old, new, pos, 'res' if (pos + len(new)) % 2 else 'whole'))
+                    for p0 in P0S:
+                        for path in PATHS:
+                            for opt in opts:
+                                tr += 1
+                                pairs.append(pair(tr, kind, 'erase', old, new, pos, p0, path, opt))
             cand = [s for s in shapes[stat] if s['mode'] == 'erase' and s['inv']]
             for sh in c.rng.sample(cand, min(per_kind, len(cand))):
                 tr += 1
-                pairs.append(pair(tr, kind, 'erase', sh['old'], sh['new'], c.rng.randint(1, NSTEPS - 1), c.rng.choice(['whole', 'res'])))
+                pairs.append(pair(tr, kind, 'erase', sh['old'], sh['new'], c.rng.randint(1, NSTEPS - 1), c.rng.choice(P0S), c.rng.choice(PATHS), c.rng.choice(opts)))
         if 'fromstart' in modes:
             cand = [s for s in shapes[stat] if s['mode'] == 'fromstart']
             for sh in c.rng.sample(cand, min(per_kind // 3, len(cand))):
                 tr += 1
-                pairs.append(pair(tr, kind, 'fromstart', sh['old'], sh['new'], c.rng.randint(0, FROMSTART_MAXPOS[kind]), c.rng.choice(['whole', 'res'])))
+                pairs.append(pair(tr, kind, 'fromstart', sh['old'], sh['new'], c.rng.randint(0, FROMSTART_MAXPOS[kind]), c.rng.choice(P0S), c.rng.choice(PATHS), c.rng.choice(opts)))
             for pos in range(0, FROMSTART_MAXPOS[kind] + 1):
-                tr += 1
-                pairs.append(pair(tr, kind, 'fromstart', ['X'], ['Xm'], pos, 'whole' if pos % 2 else 'res'))
+                for p0 in P0S:
+                    for path in PATHS:
+                        for opt in opts:
+                            tr += 1
+                            pairs.append(pair(tr, kind, 'fromstart', ['X'], ['Xm'], pos, p0, path, opt))
     # S3 + S4 ----------------------------------------------------------------------------
-    groups, nontriv = {}, set()
+    groups, nontriv, recs = {}, set(), {}
     by_tr = {p['tr']: p for p in pairs}
-    for i in range(0, len(pairs), 3000):
-        part = pairs[i:i + 3000]
+    reached, odd = 0, []
+    for i in range(0, len(pairs), 6000):
+        part = pairs[i:i + 6000]
         mism, tp = run_and_validate(c, drv, part, 'pairs%d' % i)
         if i == 0:
             binding_selftest(c, tp, {m[0] for m in mism})
         nontriv |= sensitive(tp)
+        rn, ro = reached_stats(tp, shape_of)
+        reached += rn
+        odd += ro
         c.cov['conformance_mismatches'] += len(mism)
         for trn, exp in mism:
             key, what = signature(exp, shape_of)
-            g = groups.setdefault(key, dict(what=what, n=0, best=None, exp=None, kinds=set()))
+            recs.setdefault(key, []).append((exp, by_tr[trn]))
+    # the greedy explanation (an earlier stat-compatible new rule takes the controller) predicts the failure whatever entry
+    # points and spelling of the optional fields a history uses: where the failing pairs of such a group are confined to
+    # histories that mix the entry points, or to some spellings, the explanation does not fit - they join the plain groups
+    for key in sorted(recs):
+        if '/greedy-reuse/' in key:
+            rs = recs[key]
+            mixed_only = all(entry(p['path']) != p['p0'] for _, p in rs)
+            some_opts = set(p['opt'] for _, p in rs) != set(o for _, p in rs for o in OPTS[p['kind']])
+            if mixed_only or some_opts:
+                del recs[key]
+                for exp, p in rs:
+                    recs.setdefault(generic_signature(exp)[0], []).append((exp, p))
+    for key in recs:
+        for exp, p in recs[key]:
+            raw, what = signature(exp, shape_of)
+            if raw != key:
+                what = generic_signature(exp)[1]
+            g = groups.setdefault(key, dict(what=what, n=0, best=None, exp=None, kinds=set(), combos=set(), opts=set(), raw=set()))
             g['n'] += 1
+            g['raw'].add(raw)
             g['kinds'].add(exp['kind'])
-            p = by_tr[trn]
+            g['combos'].add((p['p0'], p['path']))
+            g['opts'].add(p['opt'])
             size = (len(p['old']) + len(p['new']), p['pos'])
             if g['best'] is None or size < g['size']:
                 g['best'], g['size'], g['exp'] = p, size, exp
@@ -251,7 +334,7 @@ def check(c, tier, replay):
         items = [dict(groups[k]['best'], tr=j + 1) for j, k in enumerate(keys)]
         m2, _ = run_and_validate(c, drv, items, 'confirm%d' % rnd)
         for trn, exp in m2:
-            if signature(exp, shape_of)[0] == keys[trn - 1]:
+            if signature(exp, shape_of)[0] in groups[keys[trn - 1]]['raw']:
                 confirmed[keys[trn - 1]] += 1
     for k in keys:
         g = groups[k]
@@ -260,18 +343,36 @@ def check(c, tier, replay):
             continue
         rp = c.save_replay(k.replace('C14/', '').replace('/', '_') + '.ndjson', [g['best']])
         e = g['exp']
-        what = '%s  [%d failing pairs, kinds %s; minimal: kind %s, %s -> %s reloaded (%s) before step %d: step %d decided %s with the reload, %s without]' % (
-            g['what'], g['n'], sorted(g['kinds']), e['kind'], e['old'], e['new'], e['path'], e['pos'] + 1, e['step'], json.dumps(e['a']), json.dumps(e['b']))
-        c.cov.setdefault('failing_groups', {})[k] = dict(pairs=g['n'], kinds=sorted(g['kinds']), minimal=g['best'], observed=e)
+        # which part of the scenario space the failures are confined to (description only, never the verdict)
+        where = []
+        if all(entry(pth) != p0 for p0, pth in g['combos']):
+            where.append('ONLY in histories that MIX the entry points (initial load and reload through different ones: %s)' % sorted('%s->%s' % cb for cb in g['combos']))
+        elif all(entry(pth) == p0 for p0, pth in g['combos']):
+            where.append('only in histories that stay on one entry point (%s)' % sorted('%s->%s' % cb for cb in g['combos']))
+        all_opts = set(o for kd in g['kinds'] for o in OPTS[kd])
+        if g['opts'] != all_opts:
+            where.append('only with the optional fields spelled %s (of %s)' % (sorted(g['opts']), sorted(all_opts)))
+        what = '%s  [%d failing pairs, kinds %s%s; minimal: kind %s (optional fields %s), %s loaded (%s) -> %s reloaded (%s) before step %d: step %d decided %s with the reload, %s without]' % (
+            g['what'], g['n'], sorted(g['kinds']), ''.join('; ' + w for w in where), e['kind'], e['opt'], e['old'], e['p0'], e['new'], e['path'], e['pos'] + 1,
+            e['step'], json.dumps(e['a']), json.dumps(e['b']))
+        c.cov.setdefault('failing_groups', {})[k] = dict(pairs=g['n'], kinds=sorted(g['kinds']), minimal=g['best'], observed=e,
+                                                         entry_points=sorted('%s->%s' % cb for cb in g['combos']), opts=sorted(g['opts']))
         if c.is_known(k):
             c.known(k, c.kf[k]['description'])
         else:
             c.violation(what, rp)
     c.cov['distinct_nontrivial'] = len(nontriv)
     c.cov['per_kind'] = {k: sum(1 for p in pairs if p['kind'] == k) for k in KINDS}
-    c.cov['rule'] = ('scenario = pair of runs (with reload / reference) of one (kind, mode, old list, new list, reload position, load path); shapes come '
-                     'from RuleReuse_Shapes (TLC): %d seed shapes at every position + a seeded sample of all %d shapes; non-trivial = distinct pair whose '
-                     'lists differ and whose reference run refuses or delays a request AFTER the reload position (so lost state would change a decision)'
+    c.cov['pairs_mixing_entry_points'] = sum(1 for p in pairs if entry(p['path']) != p['p0'])
+    c.cov['pairs_per_spelling'] = {o: sum(1 for p in pairs if p['opt'] == o) for o in sorted(set(p['opt'] for p in pairs))}
+    c.cov['reloads_past_unchanged_detection'] = reached
+    c.cov['unchanged_detection_differs_from_spec'] = dict(n=len(odd), first=odd[:3])
+    c.log('%d pairs: %d mix the entry points, %d reloads got past the unchanged-detection (%d where the module and RuleReuse.Skipped disagree), spellings %s' % (
+        len(pairs), c.cov['pairs_mixing_entry_points'], reached, len(odd), c.cov['pairs_per_spelling']))
+    c.cov['rule'] = ('scenario = pair of runs (with reload / reference) of one (kind, mode, old list, new list, reload position, entry point of the initial '
+                     'load, load path of the reload, spelling of the optional fields); shapes come from RuleReuse_Shapes (TLC): %d seed shapes at every position x '
+                     'entry points x spellings + a seeded sample of all %d shapes; non-trivial = distinct pair whose reload got past the unchanged-detection '
+                     'and whose reference run refuses or delays a request AFTER the reload position (so lost state would change a decision)'
                      % (len(SEED_SHAPES), len(shapes['MCStat'])))
     c.sample(pairs[1])
     c.sample(pairs[len(pairs) // 2])
